@@ -94,7 +94,7 @@ impl Matcher for SizeMatcher {
                     file_info.path().to_string_lossy(),
                     e
                 )
-                .unwrap();
+                .ok();
                 false
             }
         }
